@@ -9,7 +9,7 @@ use crate::{
     },
     codec::*,
     core::{
-        base_types::{NonZero, QoS},
+        base_types::{NonZero, QoS, VarSizeInt},
         utils::{Encode, SizedPacket},
     },
     PublishData, SubscriptionOpts,
@@ -27,6 +27,16 @@ use std::sync::Arc;
 pub(crate) fn next_packet_id(counter: &AtomicU16) -> u16 {
     loop {
         let id = counter.fetch_add(1, Ordering::Relaxed);
+        if id != 0 {
+            return id;
+        }
+    }
+}
+
+/// Allocates the next subscription identifier, a variable byte integer in 1..=268435455.
+pub(crate) fn next_subscription_id(counter: &AtomicU32) -> u32 {
+    loop {
+        let id = counter.fetch_add(1, Ordering::Relaxed) & (VarSizeInt::MAX as u32);
         if id != 0 {
             return id;
         }
@@ -238,7 +248,7 @@ impl ContextHandle {
 
         let packet = opts
             .packet_identifier(next_packet_id(&self.packet_id))
-            .subscription_identifier(self.sub_id.fetch_add(1, Ordering::Relaxed))
+            .subscription_identifier(next_subscription_id(&self.sub_id))
             .build()?;
 
         let subscription_identifier = NonZero::from(packet.subscription_identifier.unwrap())
